@@ -73,6 +73,26 @@ mod verif_tcp {
         std::mem::forget(r);
     }
 
+    // C15 (header half, complete over the 20 header bytes): parse then From<&TcpHeader> gives the same bytes
+    #[kani::proof]
+    fn c15_tcp_header_codec() {
+        let a: [u8; 20] = kani::any();
+        let r = Tcp::from_bytes(Rc::new(a.to_vec()), 0);
+        if let Ok(t) = &r {
+            let h = t.header.borrow();
+            let out: Vec<u8> = (&*h).into();
+            assert!(out.len() == 20);
+            let i: usize = kani::any();
+            kani::assume(i < 20);
+            assert!(out[i] == a[i]);
+            kani::cover!(true);
+            std::mem::forget(out);
+        } else {
+            assert!(false);
+        }
+        std::mem::forget(r);
+    }
+
     // ---- C17: each setter changes exactly its own bit range ----
     fn snapshot(t: &Tcp) -> [i64; 9] {
         [int_of(t.get_source_port()), int_of(t.get_destination_port()), int_of(t.get_sequence()), int_of(t.get_ack()),
